@@ -5,7 +5,8 @@ import CoclsModel.ThreadPoolProofs
 Model: `CoclsModel/ThreadPool.lean` (one small step per critical section on the pool mutex / join / closure destruction;
 workers `0..nw-1`, clients `nw..nt-1`).  Every theorem quantifies over *all* configurations (any number of workers ≥ 1 and
 of clients, arbitrary client scripts: submissions of every kind whose bodies may stop the pool, submit nested work or
-delete the pool; `stop()`; destruction), over *all* schedules (`run` over an arbitrary list of thread choices, threads
+delete the pool, or block until another job has signalled an event (a job waiting for another job); `stop()`;
+destruction), over *all* schedules (`run` over an arbitrary list of thread choices, threads
 that are not enabled do not move) and over *all* choices of the waiter a `notify_one` wakes and of the order in which
 `stop()` destroys the closures of the swapped-out queue (`std::deque` leaves it unspecified).
 
@@ -30,6 +31,11 @@ def Stuck (c : Cfg) (s : State) : Prop := ∀ t, t < c.nt → enabled s t = fals
 
 /-- every thread ran to its end -/
 def AllDone (c : Cfg) (s : State) : Prop := ∀ t, t < c.nt → s.pc t = Pc.done
+
+/-- no thread is blocked in a user-level wait (`Prim.wait`: a job or client waiting for an event that only another job
+signals); such waits are the program's, not the pool's: a job that waits for a job which can never run (one worker, or
+the pool was stopped) blocks for ever whatever the pool does -/
+def NoUserWait (s : State) : Prop := ∀ t f, s.pc t ≠ Pc.waitFlag f
 
 /-- the closure kind has a cancellation channel (everything but a bare coroutine handle) -/
 def Cancellable (c : Cfg) (k : Kind) : Prop := dropKind c k ≠ DropAct.nothing
@@ -61,8 +67,9 @@ theorem c11_cancel_only_when_stopped {c : Cfg} (hc : WF c) {s : State} (h : Reac
 /-- **`stop()` and the destructor terminate, for every timing.** Once any `stop()` (from a client, from a job — the
 self-detach path —, concurrently from several threads, or through the destructor) has executed its critical section,
 the system cannot get stuck before every thread has finished: the stopper is never blocked for ever in `join`, no
-worker sleeps for ever on the condition variable. -/
-theorem c11_stop_terminates {c : Cfg} (hc : WF c) {s : State} (h : Reachable c s) (hst : Stuck c s)
+worker sleeps for ever on the condition variable.  (`NoUserWait`: jobs blocked in their own waits are the program's
+dead-lock; `c11_stop_blocked_only_by_user_waits` is the statement without that hypothesis.) -/
+theorem c11_stop_terminates {c : Cfg} (hc : WF c) {s : State} (h : Reachable c s) (hst : Stuck c s) (hnu : NoUserWait s)
     (hex : s.exit = true) : AllDone c s := by
   have hi := reachable_inv hc h
   have hwq : s.waitq = [] := hi.s_exit_wq hex
@@ -79,6 +86,7 @@ theorem c11_stop_terminates {c : Cfg} (hc : WF c) {s : State} (h : Reachable c s
       rcases hi.s_cv t (Or.inr hpc) with hw | hw
       · rw [hw] at hen; cases hen
       · rw [hwq] at hw; cases hw
+    · rename_i f hpc; exact absurd hpc (hnu t f)
     · rename_i hpc
       split at hen
       · rename_i u rest htm
@@ -100,9 +108,104 @@ theorem c11_stop_terminates {c : Cfg} (hc : WF c) {s : State} (h : Reachable c s
     simp at this
     exact this htu.symm
 
+/-- **Nothing but the program's own waits can block a stopped pool.** In any stuck state after a `stop()` every thread
+is finished, or blocked in a user-level wait for an event nobody signalled, or is the one `stop()` joining a worker
+whose job is blocked in such a wait. -/
+theorem c11_stop_blocked_only_by_user_waits {c : Cfg} (hc : WF c) {s : State} (h : Reachable c s) (hst : Stuck c s)
+    (hex : s.exit = true) (t : Nat) (ht : t < c.nt) :
+    s.pc t = Pc.done ∨ (∃ f, s.pc t = Pc.waitFlag f ∧ s.flag f = false) ∨
+    (s.pc t = Pc.joinBlocked ∧ ∃ u rest f, s.tmp t = u :: rest ∧ s.pc u = Pc.waitFlag f ∧ s.flag f = false) := by
+  have hi := reachable_inv hc h
+  have hwq : s.waitq = [] := hi.s_exit_wq hex
+  have key : ∀ t, t < c.nt → s.pc t = Pc.done ∨ (∃ f, s.pc t = Pc.waitFlag f ∧ s.flag f = false) ∨
+      (s.pc t = Pc.joinBlocked ∧ ∃ u rest, s.tmp t = u :: rest ∧ s.pc u ≠ Pc.done) := by
+    intro t ht
+    have hen := hst t ht
+    unfold enabled at hen
+    split at hen
+    · rename_i hpc; exact Or.inl hpc
+    · rename_i hpc; exact absurd hpc (hi.s_nostuck t)
+    · rename_i hpc
+      rcases hi.s_cv t (Or.inr hpc) with hw | hw
+      · rw [hw] at hen; cases hen
+      · rw [hwq] at hw; cases hw
+    · rename_i f hpc; exact Or.inr (Or.inl ⟨f, hpc, hen⟩)
+    · rename_i hpc
+      split at hen
+      · rename_i u rest htm
+        refine Or.inr (Or.inr ⟨hpc, u, rest, htm, ?_⟩)
+        intro hd; rw [hd] at hen; simp at hen
+      · cases hen
+    · cases hen
+  rcases key t ht with h1 | h1 | ⟨hjb, u, rest, htm, hud⟩
+  · exact Or.inl h1
+  · exact Or.inr (Or.inl h1)
+  · have hu_w : u < c.nw := hi.s_tmp_w t u (by rw [htm]; simp)
+    have hu_t : u < c.nt := Nat.lt_of_lt_of_le hu_w hc.nt
+    rcases key u hu_t with h2 | ⟨f, hf, hff⟩ | ⟨hjb', u', rest', htm', _⟩
+    · exact absurd h2 hud
+    · exact Or.inr (Or.inr ⟨hjb, u, rest, f, htm, hf, hff⟩)
+    · exfalso
+      have htu : t = u := hi.s_tmp_uniq t u (by rw [htm]; simp) (by rw [htm']; simp)
+      have := hi.s_jb_head t hjb
+      rw [htm] at this
+      simp at this
+      exact this htu.symm
+
+/-- **No stranded job.** In a stuck state of a pool that nobody stopped no submission is queued while a worker sleeps in
+the condition wait — whatever the jobs do, including jobs that block waiting for other jobs: every worker is then busy
+(blocked inside a job).  So a job that waits for a later-submitted job cannot hang while a worker idles. -/
+theorem c11_no_stranded_job {c : Cfg} (hc : WF c) {s : State} (h : Reachable c s) (hst : Stuck c s)
+    (hex : s.exit = false) (hq : s.q ≠ []) (w : Nat) : s.pc w ≠ Pc.wCvBlocked ∧ s.pc w ≠ Pc.wCvCheck := by
+  have hi := reachable_inv hc h
+  have hlt : ∀ u, c.nt ≤ u → s.pc u = Pc.done := hi.t_out
+  have hcheck : s.pc w ≠ Pc.wCvCheck := by
+    intro hpc
+    by_cases hw : w < c.nt
+    · have := hst w hw; unfold enabled at this; rw [hpc] at this; cases this
+    · have := hlt w (by omega); rw [hpc] at this; cases this
+  refine ⟨?_, hcheck⟩
+  intro hpc
+  have hw : w < c.nt := by
+    by_cases hw : w < c.nt
+    · exact hw
+    · have := hlt w (by omega); rw [hpc] at this; cases this
+  have hen := hst w hw
+  unfold enabled at hen
+  rw [hpc] at hen
+  have hwk : s.woken w = false := by simpa using hen
+  have hwq : w ∈ s.waitq := by
+    rcases hi.s_cv w (Or.inr hpc) with h1 | h1
+    · rw [hwk] at h1; cases h1
+    · exact h1
+  have hlen := hi.a_len hex (by intro e; rw [e] at hwq; cases hwq)
+  cases ha : s.awake with
+  | nil =>
+    rw [ha] at hlen
+    cases hqq : s.q with
+    | nil => exact hq hqq
+    | cons a l => rw [hqq] at hlen; simp at hlen
+  | cons u l =>
+    have hu := (hi.a_mem hex u).1 (by rw [ha]; simp)
+    have hut : u < c.nt := by
+      by_cases hut : u < c.nt
+      · exact hut
+      · exfalso
+        have hd := hlt u (by omega)
+        rcases hu with h1 | h1
+        · rcases hi.s_woken u h1 with h2 | h2 <;> rw [hd] at h2 <;> cases h2
+        · rw [hd] at h1; cases h1
+    have henu := hst u hut
+    unfold enabled at henu
+    rcases hu with h1 | h1
+    · rcases hi.s_woken u h1 with h2 | h2
+      · rw [h2] at henu; cases henu
+      · rw [h2, h1] at henu; cases henu
+    · rw [h1] at henu; cases henu
+
 /-- When a pool that nobody stopped becomes quiescent, all clients are finished, all workers sleep on the condition
 variable, the queue is empty and **every submission has been executed** (no lost wake-up, nothing forgotten). -/
-theorem c11_idle_quiescence {c : Cfg} (hc : WF c) {s : State} (h : Reachable c s) (hst : Stuck c s)
+theorem c11_idle_quiescence {c : Cfg} (hc : WF c) {s : State} (h : Reachable c s) (hst : Stuck c s) (hnu : NoUserWait s)
     (hex : s.exit = false) :
     (∀ t, t < c.nt → (c.nw ≤ t → s.pc t = Pc.done) ∧ (t < c.nw → s.pc t = Pc.wCvBlocked)) ∧ s.q = [] ∧
     ∀ j, j < s.nextJob → s.ran j = 1 := by
@@ -117,6 +220,7 @@ theorem c11_idle_quiescence {c : Cfg} (hc : WF c) {s : State} (h : Reachable c s
     · rename_i hpc; exact Or.inl hpc
     · rename_i hpc; exact absurd hpc (hi.s_nostuck t)
     · rename_i hpc; right; exact ⟨hpc, by simpa using hen⟩
+    · rename_i f hpc; exact absurd hpc (hnu t f)
     · rename_i hpc
       have := (hne t).1; rw [hpc] at this; cases this
     · cases hen
@@ -169,16 +273,16 @@ theorem c11_idle_quiescence {c : Cfg} (hc : WF c) {s : State} (h : Reachable c s
   omega
 
 /-- at quiescence every closure has been invoked or destroyed -/
-theorem c11_quiescent_closure_fate {c : Cfg} (hc : WF c) {s : State} (h : Reachable c s) (hst : Stuck c s) (j : Nat)
+theorem c11_quiescent_closure_fate {c : Cfg} (hc : WF c) {s : State} (h : Reachable c s) (hst : Stuck c s) (hnu : NoUserWait s) (j : Nat)
     (hj : j < s.nextJob) : s.ran j + s.dropped j = 1 := by
   have hi := reachable_inv hc h
   cases hex : s.exit with
   | false =>
-    have := (c11_idle_quiescence hc h hst hex).2.2 j hj
+    have := (c11_idle_quiescence hc h hst hnu hex).2.2 j hj
     have := hi.c_once j
     split at this <;> omega
   | true =>
-    have hall := c11_stop_terminates hc h hst hex
+    have hall := c11_stop_terminates hc h hst hnu hex
     have hpcs : ∀ t, s.pc t = Pc.done := by
       intro t
       by_cases ht : t < c.nt
@@ -200,17 +304,17 @@ theorem c11_quiescent_closure_fate {c : Cfg} (hc : WF c) {s : State} (h : Reacha
     simpa using h1
 
 /-- at quiescence every thread is finished or asleep in the worker loop -/
-theorem c11_quiescent_threads {c : Cfg} (hc : WF c) {s : State} (h : Reachable c s) (hst : Stuck c s) (t : Nat) :
+theorem c11_quiescent_threads {c : Cfg} (hc : WF c) {s : State} (h : Reachable c s) (hst : Stuck c s) (hnu : NoUserWait s) (t : Nat) :
     s.pc t = Pc.done ∨ s.pc t = Pc.wCvBlocked := by
   have hi := reachable_inv hc h
   by_cases ht : t < c.nt
   · cases hex : s.exit with
     | false =>
-      have := (c11_idle_quiescence hc h hst hex).1 t ht
+      have := (c11_idle_quiescence hc h hst hnu hex).1 t ht
       by_cases hw : t < c.nw
       · exact Or.inr (this.2 hw)
       · exact Or.inl (this.1 (by omega))
-    | true => exact Or.inl (c11_stop_terminates hc h hst hex t ht)
+    | true => exact Or.inl (c11_stop_terminates hc h hst hnu hex t ht)
   · exact Or.inl (hi.t_out t (by omega))
 
 /-- **Outcome (partial: bare-handle submissions excluded, see `c11_handle_lost`).** At quiescence — after `stop()`
@@ -218,13 +322,13 @@ has terminated, or with an idle pool that nobody stopped — every submission wh
 (`co_await pool`, `run(fn)`, `run_detached(fn)`, `run(async)`) was executed exactly once or was cancelled *observably*
 exactly once (the coroutine was resumed with the exception, the closure state was destroyed, the watched future was
 seen broken); never both, never neither.  Without a stop it was executed. -/
-theorem c11_outcome_partial {c : Cfg} (hc : WF c) {s : State} (h : Reachable c s) (hst : Stuck c s) (j : Nat)
+theorem c11_outcome_partial {c : Cfg} (hc : WF c) {s : State} (h : Reachable c s) (hst : Stuck c s) (hnu : NoUserWait s) (j : Nat)
     (hj : j < s.nextJob) (hk : Cancellable c (s.kind j)) :
     s.ran j + s.cancelled j = 1 ∧ (s.exit = false → s.ran j = 1) := by
   have hi := reachable_inv hc h
-  have hrd := c11_quiescent_closure_fate hc h hst j hj
-  have hpcs := c11_quiescent_threads hc h hst
-  refine ⟨?_, fun hex => (c11_idle_quiescence hc h hst hex).2.2 j hj⟩
+  have hrd := c11_quiescent_closure_fate hc h hst hnu j hj
+  have hpcs := c11_quiescent_threads hc h hst hnu
+  refine ⟨?_, fun hex => (c11_idle_quiescence hc h hst hnu hex).2.2 j hj⟩
   suffices hcd : s.cancelled j = s.dropped j by omega
   unfold Cancellable at hk
   cases hkk : dropKind c (s.kind j) with
@@ -249,15 +353,15 @@ theorem c11_outcome_partial {c : Cfg} (hc : WF c) {s : State} (h : Reachable c s
         rcases hpcs (s.owner j) with h2 | h2 <;> rw [h2] at h1 <;> cases h1
 
 /-- the complement for bare-handle submissions: at quiescence they were executed once or silently lost once -/
-theorem c11_outcome_bare {c : Cfg} (hc : WF c) {s : State} (h : Reachable c s) (hst : Stuck c s) (j : Nat)
+theorem c11_outcome_bare {c : Cfg} (hc : WF c) {s : State} (h : Reachable c s) (hst : Stuck c s) (hnu : NoUserWait s) (j : Nat)
     (hj : j < s.nextJob) (hk : ¬ Cancellable c (s.kind j)) :
     s.ran j + s.lost j = 1 ∧ s.cancelled j = 0 ∧ (s.exit = false → s.ran j = 1) := by
   have hi := reachable_inv hc h
-  have hrd := c11_quiescent_closure_fate hc h hst j hj
+  have hrd := c11_quiescent_closure_fate hc h hst hnu j hj
   have hkk : dropKind c (s.kind j) = DropAct.nothing := by
     unfold Cancellable at hk; exact Classical.not_not.1 hk
   have := hi.b_none j hkk
-  exact ⟨by omega, this.2, fun hex => (c11_idle_quiescence hc h hst hex).2.2 j hj⟩
+  exact ⟨by omega, this.2, fun hex => (c11_idle_quiescence hc h hst hnu hex).2.2 j hj⟩
 
 /-- **Cancellation is observable** (every reachable state): destroying the closure of a submission that never ran
 resumes the awaiting coroutine with the cancel exception — at once, or through the ready queue of the thread that is
@@ -278,14 +382,14 @@ theorem c11_cancel_observable {c : Cfg} (hc : WF c) {s : State} (h : Reachable c
 /-- **No waiter left hanging on a returned future.** At quiescence the future of every `run(fn)` / `run(async)`
 submission is resolved: it holds the value iff the job was executed, it is broken iff the job was cancelled, and the
 caller watching it has observed exactly that, once. -/
-theorem c11_futures_resolved {c : Cfg} (hc : WF c) {s : State} (h : Reachable c s) (hst : Stuck c s) (j : Nat)
+theorem c11_futures_resolved {c : Cfg} (hc : WF c) {s : State} (h : Reachable c s) (hst : Stuck c s) (hnu : NoUserWait s) (j : Nat)
     (hj : j < s.nextJob) (hk : dropKind c (s.kind j) = DropAct.breakPromise) :
     (s.ran j = 1 → s.fut j = Fut.value ∧ s.valued j = 1 ∧ s.cancelled j = 0) ∧
     (s.ran j = 0 → s.fut j = Fut.broken ∧ s.valued j = 0 ∧ s.cancelled j = 1) := by
   have hi := reachable_inv hc h
   have hhf := dropKind_bp_hasFut hk
-  have hrd := c11_quiescent_closure_fate hc h hst j hj
-  have hpcs := c11_quiescent_threads hc h hst
+  have hrd := c11_quiescent_closure_fate hc h hst hnu j hj
+  have hpcs := c11_quiescent_threads hc h hst hnu
   have ha : s.armed j = true := by
     cases ha : s.armed j with
     | true => rfl
@@ -430,6 +534,24 @@ example :
     Reachable c s ∧ (∀ t, t < 2 → enabled s t = false) ∧ s.exit = true ∧ s.detached 0 = true ∧
     s.ran 0 = 1 ∧ s.cancelled 1 = 1 ∧ s.cancelled 2 = 1 ∧ s.fut 0 = Fut.value := by
   refine ⟨⟨_, rfl⟩, ?_⟩
+  decide
+
+/-- a job that waits for the job submitted after it, two workers: the waiter blocks on worker 0, worker 1 takes the
+second job, both complete (a reachable state with a thread in `Pc.waitFlag` on the way) -/
+example :
+    let c : Cfg := { nw := 2, nt := 3, script := fun _ => [Act.submit Kind.fn [Prim.wait 0] false, Act.submit Kind.det [Prim.set 0] false] }
+    let mid := run c (init c) (List.replicate 6 (2, 0) ++ List.replicate 4 (0, 0))
+    let s := run c mid (List.replicate 8 (1, 0) ++ List.replicate 8 (0, 0))
+    mid.pc 0 = Pc.waitFlag 0 ∧ mid.q = [1] ∧ (∀ t, t < 3 → enabled s t = false) ∧ s.exit = false ∧
+    s.ran 0 = 1 ∧ s.ran 1 = 1 ∧ s.fut 0 = Fut.value ∧ s.q = [] := by
+  decide
+
+/-- the same program on a single worker dead-locks itself (the waiter occupies the only worker): stuck with a queued
+job, but no worker sleeps — `NoUserWait` fails, `c11_no_stranded_job` holds -/
+example :
+    let c : Cfg := { nw := 1, nt := 2, script := fun _ => [Act.submit Kind.fn [Prim.wait 0] false, Act.submit Kind.det [Prim.set 0] false] }
+    let s := run c (init c) schedClientFirst
+    (∀ t, t < 2 → enabled s t = false) ∧ s.pc 0 = Pc.waitFlag 0 ∧ s.q = [1] ∧ s.ran 1 = 0 := by
   decide
 
 /-- an idle pool that nobody stopped: the client is finished, the worker sleeps, both jobs ran -/
